@@ -1126,10 +1126,9 @@ func (segstore *SegStore) WritePackedRecord(rawJson []byte, ts_millis uint64,
 	jsParsingStackbuf []byte) error {
 
 	var err error
-	var matchedPCols bool
 	tsKey := config.GetTimeStampKey()
 	if signalType == sutils.SIGNAL_EVENTS || signalType == sutils.SIGNAL_JAEGER_TRACES {
-		matchedPCols, err = segstore.EncodeColumns(rawJson, ts_millis, &tsKey, signalType,
+		_, err = segstore.EncodeColumns(rawJson, ts_millis, &tsKey, signalType,
 			cnameCacheByteHashToStr, jsParsingStackbuf)
 		if err != nil {
 			log.Errorf("WritePackedRecord: Failed to encode record=%+v", string(rawJson))
@@ -1140,9 +1139,8 @@ func (segstore *SegStore) WritePackedRecord(rawJson []byte, ts_millis uint64,
 		return errors.New("unknown signal type")
 	}
 
-	if matchedPCols {
-		applyStreamingSearchToRecord(segstore, segstore.pqTracker.PQNodes, segstore.wipBlock.blockSummary.RecCount)
-	}
+	// every record is checked against the persistent queries, also one that has none of their columns
+	applyStreamingSearchToRecord(segstore, segstore.pqTracker.PQNodes, segstore.wipBlock.blockSummary.RecCount)
 
 	for _, cwip := range segstore.wipBlock.colWips {
 		segstore.wipBlock.maxIdx = max(segstore.wipBlock.maxIdx, cwip.cbufidx)
